@@ -190,7 +190,7 @@ func c11(ctx *core.Ctx) {
 	quietLogs()
 	ctx.Rule("generated histories of 4-20 operations over {Add, Remove, Route, RemoveRoute, Handle, HandleWithFilter} on a root-path pool built to collide (/, '', /a, /a/, /a/b, /a/{x}, /a/{x}/b, /a/{y}/c, /ab, /{z}, /u, /u/, /u/{a}, /users/{id}/a, /users/{id}/b, /{p}/{q} ...), dynamic and static services, duplicate (method,path) routes with different Produces, both routers, with and without the OPTIONS filter. After EVERY operation a fresh container is built from the model (new objects, same order) and ~250 probe requests (hits, near misses, handler patterns, strays; GET/POST/OPTIONS/DELETE) are answered via ServeHTTP and Dispatch by both; complete responses must be equal. Add/Handle must not panic. Non-trivial = a history prefix containing a Remove/RemoveRoute or >= 2 services; distinct by (operation kind, number of services, root-on-'/' present, handlers present, router).")
 	ctx.Assume("histories never add a duplicate root path (the library exits by contract) and never register a handler pattern twice")
-	hists := ctx.N(250, 5000)
+	hists := ctx.N(250, 20000)
 	nextID := 0
 	for hi := 0; hi < hists; hi++ {
 		if ctx.Skip(hi) {
